@@ -1569,6 +1569,7 @@ def search(ctx, broken):
     _search_large(ctx, rng, am, scale)
     _search_conversions(ctx, rng, am)
     _search_p2c_direct(ctx, rng, am, scale)
+    _search_oriented(ctx, am, scale)
 
 
 # ----------------------------------------------------------------------------------------------
@@ -2518,6 +2519,96 @@ def _check_p2c_undone(ctx, sysm, spos, prim2, T32, what, replay, extra_tol=0.0):
             not np.allclose(prim2.box.vects, sysm.box.vects @ T32.T, rtol=0, atol=1e-8 * float(np.abs(sysm.box.vects).max())):
         ctx.violate('conversion-p2c:undone', f'{what}: the cell that comes back, {prim2.box.vects.tolist()}, is not the original '
                     f'one turned by the composite transform, {(sysm.box.vects @ T32.T).tolist()}', replay)
+
+
+HALF_TURNS = [(-1, -1, 1), (-1, 1, -1), (1, -1, -1)]
+
+
+def _search_oriented(ctx, am, scale=1):
+    """cells whose vectors lie ALONG the Cartesian axes but not in the LAMMPS order / direction - axes permuted (cyclically:
+    a rotation; swapped: left-handed), one or three axes mirrored (left-handed), two axes mirrored (a half turn: right-
+    handed with negative components) - and the same for oblique cells: through supersize, rotate (identity, fixed and
+    random vectors), primitive_to_conventional and conventional_to_primitive. (Own random stream: the batches before
+    this one see the same cases as before it existed.)"""
+    np = _np()
+    rng = random.Random(ctx.seed * 104729 + 71)
+    I3 = np.eye(3)
+
+    def oriented(box, fam, kind):
+        if kind == 'half-turn':
+            sg = rng.choice(HALF_TURNS)
+            return am.Box(vects=box.vects * np.array(sg, dtype=float), origin=box.origin), fam + '-halfturn'
+        return orient_box(rng, am, box, fam, kind)
+
+    def std_box(orth):
+        while True:
+            box, fam = _gen_box(rng, am)
+            if fam in (('cubic', 'tetragonal', 'orthorhombic') if orth else
+                       ('hexagonal', 'monoclinic', 'triclinic', 'rhombohedral')):
+                return box, fam
+
+    kinds = ['half-turn', 'lefthanded', 'permuted', 'half-turn', 'permuted', 'lefthanded', 'mirror-rotated', 'rotated']
+    for it, kind in enumerate(kinds * (ctx.n(10, 40) * scale)):
+        box, fam = oriented(*std_box(it % 5 != 4), kind)
+        U = [list(r) for r in FIXED_U[it % len(FIXED_U)]] if it % 2 == 0 else gen_U(rng, maxdet=5)[0]
+        d = _det3(U)
+        extra = near_face_atoms(rng, U) if it % 3 == 0 else []
+        sysm, fam, spos = gen_system(rng, am, fam_box=(box, fam), extra=extra, far=it % 4 == 1,
+                                     history=gen_history(rng) if it % 7 == 3 else None)
+        ctx.stats.case('oracle:rotate-oriented', (kind, repr(U), repr(sysm._c04['vects']), tuple(spos)),
+                       sample={'op': 'rotate', 'orientation': kind, 'family': fam, 'U': U, 'vects': sysm._c04['vects']})
+        ctx.extra.setdefault('rotate_orientations', {})
+        ctx.extra['rotate_orientations'][kind] = ctx.extra['rotate_orientations'].get(kind, 0) + 1
+        _oracle_rotate(ctx, am, sysm, fam, spos, U, d, U, 'int-list', True, 'rotate')
+        if it % 4 == 2:
+            # ... and supersize of the same object
+            sizes = gen_sizes(rng)
+            ns = [norm_size(x) for x in sizes]
+            what = f'supersize{sizes_repr(sizes)} ({fam} cell {sysm.box.vects.tolist()})'
+            replay = {'op': 'supersize', 'family': fam, 'case': sysm._c04, 'spos': [[float(x) for x in sp] for sp in spos],
+                      'sizes': [list(x) for x in ns]}
+            try:
+                new = sysm.supersize(*sizes)
+            except Exception as e:  # noqa
+                ctx.violate('supersize:raises', f'{what} raised {type(e).__name__}: {e} for valid integer multipliers', replay)
+                continue
+            _check_same_crystal(ctx, 'supersize', what, sysm, spos, new, I3, math.prod(h - l for l, h in ns), replay)
+    # the conversions on half-turned cells of every setting (the other orientations: _search_conversions / _search_p2c_direct)
+    from atomman.tools import miller
+    for setting in CONV_SITES:
+        for _ in range(ctx.n(2, 6)):
+            case = gen_conv_case(rng, am, setting, mode=rng.choice(['plain', 'far', 'random']))
+            box, fam = oriented(am.Box(vects=case['vects'], origin=case['origin']), case['family'], 'half-turn')
+            case.update(vects=box.vects.tolist(), origin=box.origin.tolist(), family=fam, op='conversion', check_basis=True,
+                        call_setting=setting)
+            ctx.stats.case('oracle:conversion-oriented', (setting, 'half-turn', repr(case['stored']), repr(case['vects'])),
+                           sample={'op': 'c2p->p2c', 'setting': setting, 'family': fam, 'orientation': 'half-turn'})
+            _run_conversion(ctx, am, case)
+        tab = np.asarray(miller.vector_conventional_to_primitive(np.identity(3), setting=setting), dtype=float)
+        U = [[int(round(x)) for x in row] for row in tab.tolist()]
+        if not np.allclose(tab, np.array(U)):
+            continue
+        for _ in range(ctx.n(2, 6)):
+            box, fam = oriented(*std_box(rng.random() < 0.7), 'half-turn')
+            sysm, fam, spos = gen_system(rng, am, fam_box=(box, fam), far=rng.random() < 0.3)
+            ctx.stats.case('oracle:p2c-direct', (setting, 'half-turn', repr(sysm._c04['vects']), tuple(spos)),
+                           sample={'op': 'p2c', 'setting': setting, 'orientation': 'half-turn', 'family': fam})
+            res = _oracle_rotate(ctx, am, sysm, fam, spos, U, _det3(U), U, 'centering-table', True, 'conversion-p2c',
+                                 call=lambda s_: s_.dump('primitive_to_conventional', setting=setting, return_transform=True),
+                                 label=f'primitive_to_conventional(setting={setting!r})', replay_extra={'p2c_setting': setting})
+            if res is None:
+                continue
+            conv2, T2 = res
+            what = (f'primitive_to_conventional(setting={setting!r}) of a {fam} cell {sysm.box.vects.tolist()} at '
+                    f'{sysm.box.origin.tolist()}, relative positions {[[float(x) for x in sp] for sp in spos]}, then '
+                    f'conventional_to_primitive(setting={setting!r}, check_basis=False)')
+            replay = {'op': 'p2c-undo', 'case': sysm._c04, 'setting': setting, 'back': setting, 'family': fam}
+            try:
+                prim2, T3 = conv2.dump('conventional_to_primitive', setting=setting, check_basis=False, return_transform=True)
+            except Exception as e:  # noqa
+                ctx.violate('conversion-p2c:undo-raises', f'{what} raised {type(e).__name__}: {e}', replay)
+                continue
+            _check_p2c_undone(ctx, sysm, spos, prim2, T3 @ T2, what, replay, extra_tol=_p2c_cleanup(np, sysm, U))
 
 
 def _run_conversion(ctx, am, case):
